@@ -254,6 +254,7 @@ def cases(tier):
         yield ("shared", cons1)
     for mi in range(len(c11.MODELS)):
         yield ("edited", mi)
+    yield ("inplace",)
 
 
 def _setup_dir(libset):
@@ -824,6 +825,59 @@ def _run_names():
     return {"evals": evals, "nontrivial": evals, "judged": evals, "viols": viols[:20], "outcomes": outcomes, "sample": sample}
 
 
+def _run_inplace(case):
+    """models that READ a file which another command of the same model WRITES (an in-place update, a staged file read back): when that file
+    does not exist the model is rejected (PathDoesNotExist) before anything executes or is written, in every order of the commands, whether the
+    writer consumes the reader or not, next to independent commands that could run; when it exists the model is accepted"""
+    import itertools
+
+    b = lambda s_: ("bare", s_)
+    q = lambda s_: ("q", s_)
+    viols, outcomes = [], {}
+    evals = judged = 0
+    distinct = set()
+    sample = None
+    work = _setup_dir("csv")
+    try:
+        for writer_consumes_reader in (True, False):
+            for writer in ("EEMSWrite", "PrintVars"):
+                for present in (False, True):
+                    cmds = [("Base", "EEMSRead", [("InFileName", q("input.csv")), ("InFieldName", b("A"))]),
+                            ("Log", "PrintVars", [("InFieldNames", ("list", [b("Base")])), ("OutFileName", q("log.txt"))]),
+                            ("Staged", "EEMSRead", [("InFileName", q("stage.csv")), ("InFieldName", b("A"))]),
+                            ("Fz", "CvtToFuzzy", [("InFieldName", b("Staged")), ("TrueThreshold", ("int", "10")), ("FalseThreshold", ("int", "0"))])]
+                    src = "Staged" if writer_consumes_reader else "Base"
+                    if writer == "EEMSWrite":
+                        cmds.append(("Out", "EEMSWrite", [("OutFileName", q("stage.csv")), ("OutFieldNames", ("list", [b(src)]))]))
+                    else:
+                        cmds.append(("Out", "PrintVars", [("InFieldNames", ("list", [b(src)])), ("OutFileName", q("stage.csv"))]))
+                    for order in itertools.permutations(range(len(cmds))):
+                        if present:
+                            if order != tuple(range(len(cmds))) and order != tuple(reversed(range(len(cmds)))):
+                                continue
+                            with open(os.path.join(work, "stage.csv"), "w") as f:
+                                f.write("A\n1\n2\n3\n4\n5\n")
+                        elif os.path.exists(os.path.join(work, "stage.csv")):
+                            os.remove(os.path.join(work, "stage.csv"))
+                        text = G.render(G.items_of([cmds[i] for i in order]))[0]
+                        ob = _observe(text, CSV, work)
+                        evals += 1
+                        judged += 1
+                        distinct.add(text)
+                        tag = {"text": text, "stage_file_exists": present, "writer": writer, "writer_consumes_reader": writer_consumes_reader}
+                        sample = tag
+                        what = "read of a file that %s written by the model itself (%s)" % ("exists and is" if present else "does not exist and is", writer)
+                        oc = _judge(("accept",) if present else ("reject", ("PathDoesNotExist",)), ob, viols, "inplace", what, tag, len(cmds))
+                        if not present and ob["cls"] in VALIDATION and (ob["executed"] or ob["new_files"]):
+                            viols.append(V("C12:inplace:side-effect-before-reject", "%s: rejected with %s after executing %r / creating %r" % (what, ob["cls"], ob["executed"][:3], ob["new_files"]), **tag))
+                            oc = "bad"
+                        outcomes["inplace:%s" % oc] = outcomes.get("inplace:%s" % oc, 0) + 1
+    finally:
+        import shutil
+        shutil.rmtree(work, ignore_errors=True)
+    return {"evals": evals, "nontrivial": len(distinct), "judged": judged, "viols": viols[:20], "outcomes": outcomes, "sample": sample}
+
+
 def run(case):
     case = tuple(case)
     if case[0] == "names":
@@ -838,4 +892,6 @@ def run(case):
         return _run_shared(case)
     if case[0] == "edited":
         return _run_edited(case)
+    if case[0] == "inplace":
+        return _run_inplace(case)
     return _run_faults(case)
